@@ -18,9 +18,17 @@ theorem sendPacket_ok {env : Env} {c c' : Chain} {p : Packet} (h : sendPacket en
   · by_cases h2 : p.src = c.self
     · by_cases h3 : c.clients p.dst = true
       · by_cases h4 : p.seq = chainNext c p.dst
-        · simp [h1, h2, h3, h4] at h
-          refine ⟨h1, h2, h3, h4, ?_⟩
-          rw [← h]; simp [h4]
+        · by_cases h5 : p.seq + 1 ≥ 2 ^ 64
+          · simp [h1, h2, h3, h4] at h
+            rw [if_pos (by rw [← h4]; omega)] at h; cases h
+          · by_cases h6 : (p.seq = c.cseq p.dst ∨ p.seq = contractNext c p.dst)
+            · rw [if_neg (by simp [h1]), if_neg (by simp [h2]), if_neg (by simp [h3]), if_neg (by simp [h4]),
+                if_neg h5, if_neg (by simp [h6])] at h
+              refine ⟨h1, h2, h3, h4, ?_⟩
+              injection h with h; exact h.symm
+            · rw [if_neg (by simp [h1]), if_neg (by simp [h2]), if_neg (by simp [h3]), if_neg (by simp [h4]),
+                if_neg h5, if_pos (by simpa using h6)] at h
+              cases h
         · simp [h1, h2, h3, h4] at h
       · simp [h1, h2, h3] at h
     · simp [h1, h2] at h
@@ -52,12 +60,15 @@ theorem evmCommit_eq (c : Chain) (logs : List Log) : ∃ e, evmCommit c logs = {
 /-- successful sends towards `d`, oldest first -/
 def sentTo (sent : List Packet) (d : Bytes) : List Packet := sent.filter (fun p => p.dst == d)
 
-def GapFreeF (ns : Bytes → Option Nat) (sent : List Packet) : Prop :=
-  ∀ d, (ns d).getD 1 = (sentTo sent d).length + 1 ∧
-       (sentTo sent d).map (·.seq) = List.range' 1 (sentTo sent d).length
+/-- `b d` = number of packets sent to `d` before the history started (0 on a chain whose counters start at 1, `n - 1`
+when the history starts with the counter at `n`, 0 again after a software upgrade). It is a parameter of the
+invariant, not a field of the state. -/
+def GapFreeF (b : Bytes → Nat) (ns : Bytes → Option Nat) (sent : List Packet) : Prop :=
+  ∀ d, (ns d).getD 1 = b d + (sentTo sent d).length + 1 ∧
+       (sentTo sent d).map (·.seq) = List.range' (b d + 1) (sentTo sent d).length
 
-/-- per destination: the chain counter is k+1 and the successful sends carried 1, 2, …, k in this order -/
-def GapFree (c : Chain) : Prop := GapFreeF c.nextSeq c.sent
+/-- per destination: the chain counter is b+k+1 and the successful sends carried b+1, b+2, …, b+k in this order -/
+def GapFree (b : Bytes → Nat) (c : Chain) : Prop := GapFreeF b c.nextSeq c.sent
 
 def AgreeF (ns : Bytes → Option Nat) (cs : Bytes → Nat) : Prop :=
   ∀ d, (if cs d = 0 then 1 else cs d) = (ns d).getD 1
@@ -65,9 +76,11 @@ def AgreeF (ns : Bytes → Option Nat) (cs : Bytes → Nat) : Prop :=
 /-- chain counter = contract view, for every destination -/
 def Agree (c : Chain) : Prop := AgreeF c.nextSeq c.cseq
 
-structure Core (c : Chain) : Prop where
-  gap : GapFree c
+structure Core (b : Bytes → Nat) (c : Chain) : Prop where
+  gap : GapFree b c
   agree : Agree c
+
+variable {b : Bytes → Nat}
 
 theorem sentTo_append_same (sent : List Packet) (p : Packet) :
     sentTo (sent ++ [p]) p.dst = sentTo sent p.dst ++ [p] := by
@@ -78,8 +91,8 @@ theorem sentTo_append_other (sent : List Packet) (p : Packet) (d : Bytes) (h : d
   have : (p.dst == d) = false := by simp; exact fun e => h e.symm
   simp [sentTo, List.filter_append, this]
 
-theorem sendPacket_core {env : Env} {c c' : Chain} {p : Packet} (hc : Core c)
-    (h : sendPacket env c p = .ok c') : Core c' := by
+theorem sendPacket_core {env : Env} {c c' : Chain} {p : Packet} (hc : Core b c)
+    (h : sendPacket env c p = .ok c') : Core b c' := by
   obtain ⟨_, _, _, hseq, rfl⟩ := sendPacket_ok h
   constructor
   · intro d
@@ -103,7 +116,7 @@ theorem sendPacket_core {env : Env} {c c' : Chain} {p : Packet} (hc : Core c)
     · subst hd; simp
     · rw [upd_other _ _ _ _ hd, upd_other _ _ _ _ hd]; exact hc.agree d
 
-theorem hookP_core {env : Env} (logs : List Log) {c : Chain} (hc : Core c) : Core (hookP env c logs).1 := by
+theorem hookP_core {env : Env} (logs : List Log) {c : Chain} (hc : Core b c) : Core b (hookP env c logs).1 := by
   induction logs generalizing c with
   | nil => exact hc
   | cons l ls ih =>
@@ -117,15 +130,15 @@ theorem hookP_core {env : Env} (logs : List Log) {c : Chain} (hc : Core c) : Cor
       | ok c' => simpa using ih (sendPacket_core hc hs)
       | error e => simpa using hc
 
-theorem core_escrow {c : Chain} (e : Nat × Bytes → Int) (hc : Core c) : Core { c with escrow := e } :=
+theorem core_escrow {c : Chain} (e : Nat × Bytes → Int) (hc : Core b c) : Core b { c with escrow := e } :=
   ⟨hc.gap, hc.agree⟩
 
-theorem evmCommit_core {c : Chain} (logs : List Log) (hc : Core c) : Core (evmCommit c logs) := by
+theorem evmCommit_core {c : Chain} (logs : List Log) (hc : Core b c) : Core b (evmCommit c logs) := by
   obtain ⟨e, he⟩ := evmCommit_eq c logs
   rw [he]; exact core_escrow e hc
 
-theorem applyTx_core {env : Env} {c : Chain} (v : Bool) (logs : List Log) (hc : Core c) :
-    Core (applyTx env c v logs).1 := by
+theorem applyTx_core {env : Env} {c : Chain} (v : Bool) (logs : List Log) (hc : Core b c) :
+    Core b (applyTx env c v logs).1 := by
   unfold applyTx
   cases v with
   | false => simpa using hc
@@ -138,8 +151,8 @@ theorem applyTx_core {env : Env} {c : Chain} (v : Bool) (logs : List Log) (hc : 
     · exact hc
     · exact this
 
-theorem callEvm_core {env : Env} {c : Chain} (v : Bool) (logs : List Log) (hc : Core c) :
-    Core (callEvm env c v logs).1 := by
+theorem callEvm_core {env : Env} {c : Chain} (v : Bool) (logs : List Log) (hc : Core b c) :
+    Core b (callEvm env c v logs).1 := by
   unfold callEvm
   cases v with
   | false => simpa using hc
@@ -147,7 +160,7 @@ theorem callEvm_core {env : Env} {c : Chain} (v : Bool) (logs : List Log) (hc : 
 
 
 theorem core_of_fields {c c' : Chain} (h1 : c'.nextSeq = c.nextSeq) (h2 : c'.cseq = c.cseq) (h3 : c'.sent = c.sent)
-    (hc : Core c) : Core c' := by
+    (hc : Core b c) : Core b c' := by
   constructor
   · unfold GapFree; rw [h1, h3]; exact hc.gap
   · unfold Agree; rw [h1, h2]; exact hc.agree
@@ -159,12 +172,12 @@ theorem recvStore_fields (env : Env) (c : Chain) (p : Packet) :
   unfold recvStore
   split <;> simp
 
-theorem recvStore_core {env : Env} {c : Chain} (p : Packet) (hc : Core c) : Core (recvStore env c p) :=
+theorem recvStore_core {env : Env} {c : Chain} (p : Packet) (hc : Core b c) : Core b (recvStore env c p) :=
   let f := recvStore_fields env c p
   core_of_fields f.1 f.2.1 f.2.2.1 hc
 
-theorem recvCallback_core {cfg : Cfg} {env : Env} {c2 : Chain} (r : RecvIn) (hc : Core c2) :
-    Core (recvCallback cfg env c2 r).1 := by
+theorem recvCallback_core {cfg : Cfg} {env : Env} {c2 : Chain} (r : RecvIn) (hc : Core b c2) :
+    Core b (recvCallback cfg env c2 r).1 := by
   unfold recvCallback
   have h3 := callEvm_core (env := env) r.cbVmOk r.cbLogs hc
   generalize callEvm env c2 r.cbVmOk r.cbLogs = q at *
@@ -172,30 +185,44 @@ theorem recvCallback_core {cfg : Cfg} {env : Env} {c2 : Chain} (r : RecvIn) (hc 
   cases b <;> simp only [] <;> repeat' split
   all_goals first | exact hc | exact h3
 
-theorem recv_core {cfg : Cfg} {env : Env} {c : Chain} (r : RecvIn) (hc : Core c) : Core (recv cfg env c r).1 := by
+theorem recv_core {cfg : Cfg} {env : Env} {c : Chain} (r : RecvIn) (hc : Core b c) : Core b (recv cfg env c r).1 := by
   unfold recv
   repeat' split
   all_goals first | exact hc | exact recvCallback_core r (recvStore_core r.p hc) | exact recvStore_core r.p hc
 
-theorem ack_core {env : Env} {c : Chain} (a : AckIn) (hc : Core c) : Core (ack env c a).1 := by
+theorem ack_core {env : Env} {c : Chain} (a : AckIn) (hc : Core b c) : Core b (ack env c a).1 := by
   unfold ack
   repeat' split
   all_goals first | exact hc | exact ⟨hc.gap, hc.agree⟩
 
-theorem createClient_core {cfg : Cfg} {c : Chain} (n : Bytes) (hc : Core c) : Core (createClient cfg c n).1 := by
+theorem createClient_core {cfg : Cfg} {c : Chain} (n : Bytes) (hc : Core b c) : Core b (createClient cfg c n).1 := by
   unfold createClient
   repeat' split
   all_goals first | exact hc | exact ⟨hc.gap, hc.agree⟩
 
 /-- the upgrade handler leaves both counters of every destination unset (next = 1 on both sides) and restarts the
-ghost list: the invariant holds afterwards whatever the state was before -/
-theorem upgrade_core (c : Chain) : Core (upgrade c).1 := by
+ghost list: the invariant (with base 0) holds afterwards whatever the state was before -/
+theorem upgrade_core (c : Chain) : Core (fun _ => 0) (upgrade c).1 := by
   constructor
   · intro d; simp [upgrade, sentTo]
   · intro d; simp [upgrade]
 
-theorem step_core {cfg : Cfg} {env : Env} {c : Chain} (o : Op) (hc : Core c) : Core (step cfg env c o).1 := by
+/-- how the base of the invariant evolves: an upgrade restarts the numbering, nothing else touches it -/
+def baseStep (b : Bytes → Nat) : Op → (Bytes → Nat)
+  | .upgrade => fun _ => 0
+  | _ => b
+
+def baseRun (b : Bytes → Nat) (ops : List Op) : Bytes → Nat := ops.foldl baseStep b
+
+theorem baseRun_zero (ops : List Op) : baseRun (fun _ => 0) ops = fun _ => 0 := by
+  induction ops with
+  | nil => rfl
+  | cons o os ih => cases o <;> exact ih
+
+theorem step_core {cfg : Cfg} {env : Env} {c : Chain} (o : Op) (hc : Core b c) :
+    Core (baseStep b o) (step cfg env c o).1 := by
   cases o with
+  | discarded => exact hc
   | restart => exact hc
   | upgrade => exact upgrade_core c
   | tx v ls => exact applyTx_core v ls hc
@@ -203,28 +230,54 @@ theorem step_core {cfg : Cfg} {env : Env} {c : Chain} (o : Op) (hc : Core c) : C
   | ack a => exact ack_core a hc
   | createClient n => exact createClient_core n hc
 
-theorem run_core {cfg : Cfg} {env : Env} (ops : List Op) {c : Chain} (hc : Core c) : Core (run cfg env c ops) := by
-  induction ops generalizing c with
+theorem run_core {cfg : Cfg} {env : Env} (ops : List Op) {b : Bytes → Nat} {c : Chain} (hc : Core b c) :
+    Core (baseRun b ops) (run cfg env c ops) := by
+  induction ops generalizing c b with
   | nil => exact hc
   | cons o os ih => exact ih (step_core o hc)
 
-theorem fresh_core (self : Bytes) (clients : List Bytes) (seqs : List (Bytes × Nat)) (h : ∀ e ∈ seqs, e.2 = 1) :
-    Core (fresh self clients seqs) := by
-  have hn : ∀ d, ((fresh self clients seqs).nextSeq d).getD 1 = 1 := by
-    intro d
-    show (Option.map (·.2) (seqs.find? (fun e => e.1 == d))).getD 1 = 1
-    cases hf : seqs.find? (fun e => e.1 == d) with
-    | none => rfl
-    | some e => simpa using h e (List.mem_of_find?_eq_some hf)
+/-- base of a chain whose history starts with the counters `seqs` -/
+def freshBase (seqs : List (Bytes × Nat)) : Bytes → Nat :=
+  fun d => match seqs.find? (fun e => e.1 == d) with
+    | some e => e.2 - 1
+    | none => 0
+
+theorem fresh_core (self : Bytes) (clients : List Bytes) (seqs : List (Bytes × Nat)) (h : ∀ e ∈ seqs, 1 ≤ e.2) :
+    Core (freshBase seqs) (fresh self clients seqs) := by
   constructor
   · intro d
-    have := hn d
-    simp only [fresh] at this ⊢
-    simp [sentTo, this]
+    show (Option.map (·.2) (seqs.find? (fun e => e.1 == d))).getD 1 = freshBase seqs d + (sentTo [] d).length + 1 ∧
+      (sentTo [] d).map (·.seq) = List.range' (freshBase seqs d + 1) (sentTo [] d).length
+    unfold freshBase
+    cases hf : seqs.find? (fun e => e.1 == d) with
+    | none => simp [sentTo]
+    | some e =>
+      have := h e (List.mem_of_find?_eq_some hf)
+      simp only [sentTo, List.filter_nil, List.length_nil, List.map_nil, List.range'_zero, Option.map_some,
+        Option.getD_some, and_true]
+      omega
   · intro d
-    have := hn d
-    simp only [fresh] at this ⊢
-    simp [this]
+    show (if (fresh self clients seqs).cseq d = 0 then 1 else (fresh self clients seqs).cseq d)
+      = (Option.map (·.2) (seqs.find? (fun e => e.1 == d))).getD 1
+    have hcs : (fresh self clients seqs).cseq d = (match seqs.find? (fun e => e.1 == d) with
+      | some e => if e.2 = 1 then 0 else e.2
+      | none => 0) := rfl
+    rw [hcs]
+    cases hf : seqs.find? (fun e => e.1 == d) with
+    | none => simp
+    | some e =>
+      have := h e (List.mem_of_find?_eq_some hf)
+      by_cases h1 : e.2 = 1
+      · simp [h1]
+      · have : e.2 ≠ 0 := by omega
+        simp [h1, this]
+
+theorem freshBase_ones (seqs : List (Bytes × Nat)) (h : ∀ e ∈ seqs, e.2 = 1) : freshBase seqs = fun _ => 0 := by
+  funext d
+  unfold freshBase
+  cases hf : seqs.find? (fun e => e.1 == d) with
+  | none => rfl
+  | some e => simp [h e (List.mem_of_find?_eq_some hf)]
 
 
 /-! ### invariants that need `self ∉ clients`: commitments come from sends only, every send stays committed -/
@@ -235,22 +288,22 @@ def FromSends (env : Env) (commits : Key → Option Bytes) (sent : List Packet) 
 def Committed (env : Env) (commits : Key → Option Bytes) (sent : List Packet) (acked : List Key) : Prop :=
   ∀ p ∈ sent, commits (p.dst, p.seq) = some (env.sha256 p.bytes) ∨ (p.dst, p.seq) ∈ acked
 
-structure Full (env : Env) (c : Chain) : Prop where
-  core : Core c
+structure Full (b : Bytes → Nat) (env : Env) (c : Chain) : Prop where
+  core : Core b c
   /-- the hypothesis `HandleCreateClient` does not establish: no client under the chain's own name -/
   noself : c.clients c.self = false
   fromSends : FromSends env c.commits c.sent
   committed : Committed env c.commits c.sent c.acked
 
-theorem sent_seq_lt {c : Chain} (hc : Core c) {p : Packet} (hp : p ∈ c.sent) : p.seq < chainNext c p.dst := by
+theorem sent_seq_lt {c : Chain} (hc : Core b c) {p : Packet} (hp : p ∈ c.sent) : p.seq < chainNext c p.dst := by
   have g := hc.gap p.dst
   have hm : p ∈ sentTo c.sent p.dst := by simp [sentTo, hp]
   have : p.seq ∈ (sentTo c.sent p.dst).map (·.seq) := List.mem_map_of_mem hm
   rw [g.2, List.mem_range'_1] at this
   unfold chainNext; omega
 
-theorem sendPacket_full {env : Env} {c c' : Chain} {p : Packet} (hf : Full env c)
-    (h : sendPacket env c p = .ok c') : Full env c' ∧ c'.self = c.self := by
+theorem sendPacket_full {env : Env} {c c' : Chain} {p : Packet} (hf : Full b env c)
+    (h : sendPacket env c p = .ok c') : Full b env c' ∧ c'.self = c.self := by
   have hcore := sendPacket_core hf.core h
   obtain ⟨_, _, _, hseq, rfl⟩ := sendPacket_ok h
   refine ⟨⟨hcore, hf.noself, ?_, ?_⟩, rfl⟩
@@ -279,8 +332,8 @@ theorem sendPacket_full {env : Env} {c c' : Chain} {p : Packet} (hf : Full env c
       exact hf.committed q hq
     · left; simp
 
-theorem hookP_full {env : Env} (logs : List Log) {c : Chain} (hf : Full env c) :
-    Full env (hookP env c logs).1 ∧ (hookP env c logs).1.self = c.self := by
+theorem hookP_full {env : Env} (logs : List Log) {c : Chain} (hf : Full b env c) :
+    Full b env (hookP env c logs).1 ∧ (hookP env c logs).1.self = c.self := by
   induction logs generalizing c with
   | nil => exact ⟨hf, rfl⟩
   | cons l ls ih =>
@@ -297,16 +350,16 @@ theorem hookP_full {env : Env} (logs : List Log) {c : Chain} (hf : Full env c) :
         exact ⟨by simpa using h3, by simpa [h2] using h4⟩
       | error e => simpa using hf
 
-theorem full_escrow {env : Env} {c : Chain} (e : Nat × Bytes → Int) (hf : Full env c) : Full env { c with escrow := e } :=
+theorem full_escrow {env : Env} {c : Chain} (e : Nat × Bytes → Int) (hf : Full b env c) : Full b env { c with escrow := e } :=
   ⟨core_escrow e hf.core, hf.noself, hf.fromSends, hf.committed⟩
 
-theorem evmCommit_full {env : Env} {c : Chain} (logs : List Log) (hf : Full env c) :
-    Full env (evmCommit c logs) ∧ (evmCommit c logs).self = c.self := by
+theorem evmCommit_full {env : Env} {c : Chain} (logs : List Log) (hf : Full b env c) :
+    Full b env (evmCommit c logs) ∧ (evmCommit c logs).self = c.self := by
   obtain ⟨e, he⟩ := evmCommit_eq c logs
   rw [he]; exact ⟨full_escrow e hf, rfl⟩
 
-theorem applyTx_full {env : Env} {c : Chain} (v : Bool) (logs : List Log) (hf : Full env c) :
-    Full env (applyTx env c v logs).1 ∧ (applyTx env c v logs).1.self = c.self := by
+theorem applyTx_full {env : Env} {c : Chain} (v : Bool) (logs : List Log) (hf : Full b env c) :
+    Full b env (applyTx env c v logs).1 ∧ (applyTx env c v logs).1.self = c.self := by
   unfold applyTx
   cases v with
   | false => simpa using hf
@@ -321,8 +374,8 @@ theorem applyTx_full {env : Env} {c : Chain} (v : Bool) (logs : List Log) (hf : 
     · exact ⟨hf, rfl⟩
     · exact this
 
-theorem callEvm_full {env : Env} {c : Chain} (v : Bool) (logs : List Log) (hf : Full env c) :
-    Full env (callEvm env c v logs).1 ∧ (callEvm env c v logs).1.self = c.self := by
+theorem callEvm_full {env : Env} {c : Chain} (v : Bool) (logs : List Log) (hf : Full b env c) :
+    Full b env (callEvm env c v logs).1 ∧ (callEvm env c v logs).1.self = c.self := by
   unfold callEvm
   cases v with
   | false => simpa using hf
@@ -348,11 +401,11 @@ theorem relay_branch_unreachable (env : Env) (c : Chain) (p : Packet) (hns : c.c
   unfold recvStore
   simp [hd]
 
-theorem full_receipts {env : Env} {c : Chain} (r : Triple → Bool) (hf : Full env c) : Full env { c with receipts := r } :=
+theorem full_receipts {env : Env} {c : Chain} (r : Triple → Bool) (hf : Full b env c) : Full b env { c with receipts := r } :=
   ⟨⟨hf.core.gap, hf.core.agree⟩, hf.noself, hf.fromSends, hf.committed⟩
 
-theorem recvCallback_full {cfg : Cfg} {env : Env} {c2 : Chain} (r : RecvIn) (hf : Full env c2) :
-    Full env (recvCallback cfg env c2 r).1 ∧ (recvCallback cfg env c2 r).1.self = c2.self := by
+theorem recvCallback_full {cfg : Cfg} {env : Env} {c2 : Chain} (r : RecvIn) (hf : Full b env c2) :
+    Full b env (recvCallback cfg env c2 r).1 ∧ (recvCallback cfg env c2 r).1.self = c2.self := by
   unfold recvCallback
   have h3 := callEvm_full (env := env) r.cbVmOk r.cbLogs hf
   generalize callEvm env c2 r.cbVmOk r.cbLogs = q at *
@@ -360,15 +413,15 @@ theorem recvCallback_full {cfg : Cfg} {env : Env} {c2 : Chain} (r : RecvIn) (hf 
   cases b <;> simp only [] <;> repeat' split
   all_goals first | exact ⟨hf, rfl⟩ | exact h3
 
-theorem recv_full {cfg : Cfg} {env : Env} {c : Chain} (r : RecvIn) (hf : Full env c) :
-    Full env (recv cfg env c r).1 ∧ (recv cfg env c r).1.self = c.self := by
+theorem recv_full {cfg : Cfg} {env : Env} {c : Chain} (r : RecvIn) (hf : Full b env c) :
+    Full b env (recv cfg env c r).1 ∧ (recv cfg env c r).1.self = c.self := by
   unfold recv
   by_cases h1 : validatePacket c r.p = true
   · by_cases h2 : c.receipts (r.p.src, r.p.dst, r.p.seq) = true
     · simp [h1, h2]; exact hf
     · by_cases h3 : c.clients r.p.src = true
       · obtain ⟨hd, hs⟩ := relay_branch_unreachable env c r.p hf.noself h1 h3
-        have hf2 : Full env (recvStore env c r.p) := by rw [hs]; exact full_receipts _ hf
+        have hf2 : Full b env (recvStore env c r.p) := by rw [hs]; exact full_receipts _ hf
         have hs2 : (recvStore env c r.p).self = c.self := by rw [hs]
         simp only [h1, h2, h3, hd, Bool.not_true, Bool.false_eq_true, ↓reduceIte]
         repeat' split
@@ -376,9 +429,9 @@ theorem recv_full {cfg : Cfg} {env : Env} {c : Chain} (r : RecvIn) (hf : Full en
       · simp [h1, h2, h3]; exact hf
   · simp [h1]; exact hf
 
-theorem ack_full {env : Env} {c : Chain} (a : AckIn) (hf : Full env c) :
-    Full env (ack env c a).1 ∧ (ack env c a).1.self = c.self := by
-  have key : Full env { c with commits := upd c.commits (a.p.dst, a.p.seq) none, acked := (a.p.dst, a.p.seq) :: c.acked } := by
+theorem ack_full {env : Env} {c : Chain} (a : AckIn) (hf : Full b env c) :
+    Full b env (ack env c a).1 ∧ (ack env c a).1.self = c.self := by
+  have key : Full b env { c with commits := upd c.commits (a.p.dst, a.p.seq) none, acked := (a.p.dst, a.p.seq) :: c.acked } := by
     refine ⟨⟨hf.core.gap, hf.core.agree⟩, hf.noself, ?_, ?_⟩
     · intro d i hh hci
       have hci : upd c.commits (a.p.dst, a.p.seq) none (d, i) = some hh := hci
@@ -398,7 +451,7 @@ theorem ack_full {env : Env} {c : Chain} (a : AckIn) (hf : Full env c) :
   all_goals first | exact ⟨hf, rfl⟩ | exact ⟨key, rfl⟩ | exact ⟨full_escrow _ key, rfl⟩
 
 theorem createClient_full {cfg : Cfg} {env : Env} {c : Chain} (n : Bytes) (hn : cfg.rejectOwnName = true ∨ n ≠ c.self)
-    (hf : Full env c) : Full env (createClient cfg c n).1 ∧ (createClient cfg c n).1.self = c.self := by
+    (hf : Full b env c) : Full b env (createClient cfg c n).1 ∧ (createClient cfg c n).1.self = c.self := by
   unfold createClient
   by_cases hs : n = c.self
   · rcases hn with hn | hn
@@ -423,14 +476,15 @@ def OpOk (cfg : Cfg) (self : Bytes) : Op → Prop
 theorem opOk_hardened (cfg : Cfg) (h : cfg.rejectOwnName = true) (self : Bytes) (o : Op) : OpOk cfg self o := by
   cases o <;> simp [OpOk, h]
 
-theorem upgrade_full (env : Env) (c : Chain) : Full env (upgrade c).1 ∧ (upgrade c).1.self = c.self := by
+theorem upgrade_full (env : Env) (c : Chain) : Full (fun _ => 0) env (upgrade c).1 ∧ (upgrade c).1.self = c.self := by
   refine ⟨⟨upgrade_core c, rfl, ?_, ?_⟩, rfl⟩
   · intro d i h hc; simp [upgrade] at hc
   · intro p hp; simp [upgrade] at hp
 
-theorem step_full {cfg : Cfg} {env : Env} {c : Chain} (o : Op) (ho : OpOk cfg c.self o) (hf : Full env c) :
-    Full env (step cfg env c o).1 ∧ (step cfg env c o).1.self = c.self := by
+theorem step_full {cfg : Cfg} {env : Env} {c : Chain} (o : Op) (ho : OpOk cfg c.self o) (hf : Full b env c) :
+    Full (baseStep b o) env (step cfg env c o).1 ∧ (step cfg env c o).1.self = c.self := by
   cases o with
+  | discarded => exact ⟨hf, rfl⟩
   | restart => exact ⟨hf, rfl⟩
   | upgrade => exact upgrade_full env c
   | tx v ls => exact applyTx_full v ls hf
@@ -438,9 +492,10 @@ theorem step_full {cfg : Cfg} {env : Env} {c : Chain} (o : Op) (ho : OpOk cfg c.
   | ack a => exact ack_full a hf
   | createClient n => exact createClient_full n ho hf
 
-theorem run_full {cfg : Cfg} {env : Env} (ops : List Op) {c : Chain} (ho : ∀ o ∈ ops, OpOk cfg c.self o)
-    (hf : Full env c) : Full env (run cfg env c ops) := by
-  induction ops generalizing c with
+theorem run_full {cfg : Cfg} {env : Env} (ops : List Op) {b : Bytes → Nat} {c : Chain}
+    (ho : ∀ o ∈ ops, OpOk cfg c.self o)
+    (hf : Full b env c) : Full (baseRun b ops) env (run cfg env c ops) := by
+  induction ops generalizing c b with
   | nil => exact hf
   | cons o os ih =>
     obtain ⟨h1, h2⟩ := step_full (cfg := cfg) o (ho o (by simp)) hf
@@ -536,25 +591,53 @@ theorem evmCommit_single (logs : List Log) {c : Chain} {p : Packet} (hl : sentOf
 receives with nested sends, acknowledgements, client creations; repaired or unrepaired callback context) started on a
 chain that satisfies the invariant, for every destination the chain counter is `k+1`, where `k` is the number of
 successful sends to it, and the `i`-th successful send carried sequence `i`. -/
-theorem seq_gap_free_from (cfg : Cfg) (env : Env) (c : Chain) (ops : List Op) (hc : Core c) (d : Bytes) :
+theorem seq_gap_free_from (cfg : Cfg) (env : Env) (c : Chain) (ops : List Op) (hc : Core b c) (d : Bytes) :
     let c' := run cfg env c ops
-    chainNext c' d = (sentTo c'.sent d).length + 1 ∧
-    ∀ i (hi : i < (sentTo c'.sent d).length), ((sentTo c'.sent d)[i]).seq = i + 1 := by
-  intro c'
+    let b' := baseRun b ops
+    chainNext c' d = b' d + (sentTo c'.sent d).length + 1 ∧
+    ∀ i (hi : i < (sentTo c'.sent d).length), ((sentTo c'.sent d)[i]).seq = b' d + i + 1 := by
+  intro c' b'
   have g := (run_core (cfg := cfg) (env := env) ops hc).gap d
   refine ⟨g.1, fun i hi => ?_⟩
-  have h2 : ((sentTo c'.sent d).map (·.seq))[i]? = (List.range' 1 (sentTo c'.sent d).length)[i]? := by rw [g.2]
+  have h2 : ((sentTo c'.sent d).map (·.seq))[i]? = (List.range' (b' d + 1) (sentTo c'.sent d).length)[i]? := by rw [g.2]
   simp only [List.getElem?_map, List.getElem?_range', hi] at h2
   simp [List.getElem?_eq_getElem hi] at h2
   omega
 
-/-- `seq_gap_free_from` for a chain on which nothing has been sent yet (counters absent or initialised to 1). -/
+/-- `seq_gap_free_from` for a chain on which nothing has been sent yet (counters absent or initialised to 1):
+the counter is k+1 and the i-th successful send carried sequence i. -/
 theorem seq_gap_free (cfg : Cfg) (env : Env) (self : Bytes) (clients : List Bytes) (seqs : List (Bytes × Nat))
     (h1 : ∀ e ∈ seqs, e.2 = 1) (ops : List Op) (d : Bytes) :
     let c' := run cfg env (fresh self clients seqs) ops
     chainNext c' d = (sentTo c'.sent d).length + 1 ∧
-    ∀ i (hi : i < (sentTo c'.sent d).length), ((sentTo c'.sent d)[i]).seq = i + 1 :=
+    ∀ i (hi : i < (sentTo c'.sent d).length), ((sentTo c'.sent d)[i]).seq = i + 1 := by
+  have hc := fresh_core self clients seqs (fun e he => by rw [h1 e he]; exact Nat.le_refl 1)
+  rw [freshBase_ones seqs h1] at hc
+  have := seq_gap_free_from cfg env _ ops hc d
+  simp only [baseRun_zero, Nat.zero_add] at this
+  exact this
+
+/-- **Boundary: a history that starts with the counter of a destination at any `n ≥ 1`** (a chain that has already sent
+`n - 1` packets — near 2^63, at 2^64 - 2, …): as long as no upgrade intervenes the counter is `n + k` and the i-th
+successful send carried `n + i - 1`; and no send ever carries a sequence ≥ 2^64 - 1 (`send_below_max`): the counter
+cannot wrap, a destination whose counter reached 2^64 - 1 is closed. -/
+theorem seq_gap_free_planted (cfg : Cfg) (env : Env) (self : Bytes) (clients : List Bytes) (seqs : List (Bytes × Nat))
+    (h1 : ∀ e ∈ seqs, 1 ≤ e.2) (ops : List Op) (d : Bytes) :
+    let c' := run cfg env (fresh self clients seqs) ops
+    let b' := baseRun (freshBase seqs) ops
+    chainNext c' d = b' d + (sentTo c'.sent d).length + 1 ∧
+    ∀ i (hi : i < (sentTo c'.sent d).length), ((sentTo c'.sent d)[i]).seq = b' d + i + 1 :=
   seq_gap_free_from cfg env _ ops (fresh_core self clients seqs h1) d
+
+/-- the uint64 counter never wraps: a successful send has `seq + 1 < 2^64` (at `seq = 2^64 - 1` the Go increment wraps
+to 0 and the packet contract's `setSequence` rejects it, so `SendPacket` fails and the transaction is reverted) -/
+theorem send_below_max {env : Env} {c c' : Chain} {p : Packet} (h : sendPacket env c p = .ok c') :
+    p.seq + 1 < 2 ^ 64 := by
+  unfold sendPacket at h
+  by_cases h5 : p.seq + 1 ≥ 2 ^ 64
+  · repeat' split at h
+    all_goals first | cases h | omega
+  · omega
 
 /-- The ghost list `sent` is exactly the genuine `PacketSent` logs of the committed user transactions:
 a committed transaction appends its genuine sends in log order, a failed one appends nothing. -/
@@ -575,7 +658,7 @@ theorem tx_sends (env : Env) (c : Chain) (v : Bool) (logs : List Log) :
         simpa using this
 
 /-- **The chain counter and the packet contract's counter agree** for every destination after every history. -/
-theorem counters_agree (cfg : Cfg) (env : Env) (c : Chain) (ops : List Op) (hc : Core c) (d : Bytes) :
+theorem counters_agree (cfg : Cfg) (env : Env) (c : Chain) (ops : List Op) (hc : Core b c) (d : Bytes) :
     contractNext (run cfg env c ops) d = chainNext (run cfg env c ops) d :=
   (run_core (cfg := cfg) (env := env) ops hc).agree d
 
@@ -627,7 +710,7 @@ theorem one_commitment (env : Env) (c : Chain) (logs : List Log) (p : Packet) (h
 
 /-- Under the invariant (in particular `self ∉ clients`) the slot a send writes was empty: commitments are never
 overwritten by a send. -/
-theorem commitment_slot_fresh {env : Env} {c c' : Chain} {p : Packet} (hf : Full env c)
+theorem commitment_slot_fresh {env : Env} {c c' : Chain} {p : Packet} (hf : Full b env c)
     (h : sendPacket env c p = .ok c') : c.commits (p.dst, p.seq) = none := by
   obtain ⟨_, _, _, hseq, _⟩ := sendPacket_ok h
   cases hc : c.commits (p.dst, p.seq) with
@@ -641,7 +724,7 @@ theorem commitment_slot_fresh {env : Env} {c c' : Chain} {p : Packet} (hf : Full
 client under the chain's own name): after any such history every stored commitment `(d, i)` is the hash of the bytes
 of the `i`-th successful send to `d` (`i ≤ k`), and every successful send still has its commitment unless an accepted
 acknowledgement removed it. -/
-theorem commitments_exact (cfg : Cfg) (env : Env) (c : Chain) (ops : List Op) (hf : Full env c)
+theorem commitments_exact (cfg : Cfg) (env : Env) (c : Chain) (ops : List Op) (hf : Full b env c)
     (ho : ∀ o ∈ ops, OpOk cfg c.self o) :
     let c' := run cfg env c ops
     (∀ d i h, c'.commits (d, i) = some h → ∃ p ∈ c'.sent, p.dst = d ∧ p.seq = i ∧ h = env.sha256 p.bytes ∧ i < chainNext c' d) ∧
@@ -656,7 +739,7 @@ theorem commitments_exact (cfg : Cfg) (env : Env) (c : Chain) (ops : List Op) (h
 
 /-- `commitments_exact` without any hypothesis on the history once `HandleCreateClient` rejects the own name. -/
 theorem commitments_exact_hardened (cfg : Cfg) (hh : cfg.rejectOwnName = true) (env : Env) (c : Chain) (ops : List Op)
-    (hf : Full env c) :
+    (hf : Full b env c) :
     let c' := run cfg env c ops
     (∀ d i h, c'.commits (d, i) = some h → ∃ p ∈ c'.sent, p.dst = d ∧ p.seq = i ∧ h = env.sha256 p.bytes ∧ i < chainNext c' d) ∧
     (∀ p ∈ c'.sent, c'.commits (p.dst, p.seq) = some (env.sha256 p.bytes) ∨ (p.dst, p.seq) ∈ c'.acked) :=
@@ -781,9 +864,11 @@ theorem counters_agree_after_upgrade (cfg : Cfg) (env : Env) (c : Chain) (post :
     chainNext c' d = (sentTo c'.sent d).length + 1 ∧
     ∀ i (hi : i < (sentTo c'.sent d).length), ((sentTo c'.sent d)[i]).seq = i + 1 := by
   intro c'
-  have hc : Core (upgrade c).1 := upgrade_core c
+  have hc : Core (fun _ => 0) (upgrade c).1 := upgrade_core c
   refine ⟨counters_agree cfg env _ post hc d, ?_⟩
-  exact seq_gap_free_from cfg env _ post hc d
+  have := seq_gap_free_from cfg env _ post hc d
+  simp only [baseRun_zero, Nat.zero_add] at this
+  exact this
 
 /-- commitments after an upgrade are exactly those of the sends since the upgrade (again from ANY state before it) -/
 theorem commitments_exact_after_upgrade (cfg : Cfg) (env : Env) (c : Chain) (post : List Op)
@@ -797,7 +882,7 @@ theorem commitments_exact_after_upgrade (cfg : Cfg) (env : Env) (c : Chain) (pos
 /-- **A successful send carries the value of BOTH counters** (and, by `one_commitment_send`, leaves exactly one
 commitment and moves both to `seq + 1`) — in every state satisfying the invariant, hence in every reachable state,
 before or after any number of upgrades. -/
-theorem send_seq_is_both_counters {env : Env} {c c' : Chain} {p : Packet} (hc : Core c)
+theorem send_seq_is_both_counters {env : Env} {c c' : Chain} {p : Packet} (hc : Core b c)
     (h : sendPacket env c p = .ok c') :
     p.seq = chainNext c p.dst ∧ p.seq = contractNext c p.dst ∧
     chainNext c' p.dst = p.seq + 1 ∧ contractNext c' p.dst = p.seq + 1 ∧
@@ -829,17 +914,106 @@ theorem restart_transparent (cfg : Cfg) (env : Env) (c : Chain) (pre post : List
 /-- **Sequencing continues across restarts**: `seq_gap_free_from`, `counters_agree`, `commitments_exact` quantify over
 op lists containing `Op.restart` anywhere (constructor of `Op`; the inductions have its case); spelled out for one
 restart: after `pre`, a restart and `post`, the counter of `d` is (all successful sends to `d`, before AND after the
-restart — the ghost list is the one of the history without the restart) + 1, the i-th of them carried i, and the two
-counters agree. -/
-theorem sequencing_across_restart (cfg : Cfg) (env : Env) (c : Chain) (pre post : List Op) (hc : Core c) (d : Bytes) :
+restart — the ghost list and the base are those of the history without the restart) + base + 1, the i-th of them
+carried base + i (base = 0 for counters that started at 1), and the two counters agree. -/
+theorem sequencing_across_restart (cfg : Cfg) (env : Env) (c : Chain) (pre post : List Op) (hc : Core b c) (d : Bytes) :
     let c' := run cfg env c (pre ++ .restart :: post)
+    let b' := baseRun b (pre ++ .restart :: post)
     contractNext c' d = chainNext c' d ∧
-    chainNext c' d = (sentTo c'.sent d).length + 1 ∧
-    (∀ i (hi : i < (sentTo c'.sent d).length), ((sentTo c'.sent d)[i]).seq = i + 1) ∧
-    c' = run cfg env c (pre ++ post) := by
+    chainNext c' d = b' d + (sentTo c'.sent d).length + 1 ∧
+    (∀ i (hi : i < (sentTo c'.sent d).length), ((sentTo c'.sent d)[i]).seq = b' d + i + 1) ∧
+    c' = run cfg env c (pre ++ post) ∧ b' = baseRun b (pre ++ post) := by
+  intro c' b'
+  refine ⟨counters_agree cfg env c _ hc d, (seq_gap_free_from cfg env c _ hc d).1, (seq_gap_free_from cfg env c _ hc d).2,
+    restart_transparent cfg env c pre post, ?_⟩
+  show List.foldl baseStep b (pre ++ .restart :: post) = List.foldl baseStep b (pre ++ post)
+  simp [List.foldl_append, baseStep]
+
+/-! ### discarded executions, second instances, the codec -/
+
+/-- **A handler run on a dropped context is the identity** (Simulate, CheckTx, a dry run, a failed multi-message
+transaction): no counter, commitment, receipt or escrow changes and every later verdict is the one of the history
+without it. -/
+theorem discarded_identity (cfg : Cfg) (env : Env) (c : Chain) (pre post : List Op) :
+    (step cfg env c .discarded).1 = c ∧
+    run cfg env c (pre ++ .discarded :: post) = run cfg env c (pre ++ post) := by
+  refine ⟨rfl, ?_⟩
+  rw [run_append, run_append]; rfl
+
+theorem hookP_frame {env : Env} (logs : List Log) {c : Chain} (d : Bytes) (hd : ∀ p ∈ sentOf logs, p.dst ≠ d) :
+    (hookP env c logs).1.nextSeq d = c.nextSeq d ∧ (hookP env c logs).1.cseq d = c.cseq d ∧
+    ∀ i, (hookP env c logs).1.commits (d, i) = c.commits (d, i) := by
+  induction logs generalizing c with
+  | nil => exact ⟨rfl, rfl, fun _ => rfl⟩
+  | cons l ls ih =>
+    cases l with
+    | other => simpa [hookP] using ih (by simpa [sentOf] using hd)
+    | unknownEvent => exact ⟨rfl, rfl, fun _ => rfl⟩
+    | badData => exact ⟨rfl, rfl, fun _ => rfl⟩
+    | sent p =>
+      simp only [hookP]
+      have hp : p.dst ≠ d := hd p (by simp [sentOf])
+      cases hs : sendPacket env c p with
+      | error e => exact ⟨rfl, rfl, fun _ => rfl⟩
+      | ok c1 =>
+        obtain ⟨h1, h2, h3⟩ := ih (c := c1) (fun q hq => hd q (by simp [sentOf, hq]))
+        obtain ⟨_, _, _, hk, _, _, hf, _⟩ := one_commitment_send hs
+        have hd' : d ≠ p.dst := fun e => hp e.symm
+        refine ⟨by simp only; rw [h1, (hf d hd').1], by simp only; rw [h2, (hf d hd').2], fun i => ?_⟩
+        simp only; rw [h3 i, hk (d, i) (by intro e; injection e with e1 _; exact hd' e1)]
+
+/-- **Second instance / frame**: a transaction none of whose genuine sends goes to `d` changes neither counter of `d`
+nor any commitment under `d` — destinations do not leak into each other, however their names are related
+(prefixes, case siblings: the keys are compared as byte strings). -/
+theorem tx_frame (env : Env) (c : Chain) (v : Bool) (logs : List Log) (d : Bytes)
+    (hd : ∀ p ∈ sentOf logs, p.dst ≠ d) :
+    let c' := (applyTx env c v logs).1
+    chainNext c' d = chainNext c d ∧ contractNext c' d = contractNext c d ∧ ∀ i, c'.commits (d, i) = c.commits (d, i) := by
   intro c'
-  exact ⟨counters_agree cfg env c _ hc d, (seq_gap_free_from cfg env c _ hc d).1, (seq_gap_free_from cfg env c _ hc d).2,
-    restart_transparent cfg env c pre post⟩
+  have key : c'.nextSeq d = c.nextSeq d ∧ c'.cseq d = c.cseq d ∧ ∀ i, c'.commits (d, i) = c.commits (d, i) := by
+    show (applyTx env c v logs).1.nextSeq d = _ ∧ (applyTx env c v logs).1.cseq d = _ ∧ ∀ i, (applyTx env c v logs).1.commits (d, i) = _
+    unfold applyTx
+    cases v with
+    | false => exact ⟨rfl, rfl, fun _ => rfl⟩
+    | true =>
+      simp only [Bool.not_true, Bool.false_eq_true, ↓reduceIte]
+      have hf := hookP_frame (env := env) logs (c := evmCommit c logs) d hd
+      obtain ⟨e, he⟩ := evmCommit_eq c logs
+      have e1 : (evmCommit c logs).nextSeq = c.nextSeq := by rw [he]
+      have e2 : (evmCommit c logs).cseq = c.cseq := by rw [he]
+      have e3 : (evmCommit c logs).commits = c.commits := by rw [he]
+      rw [e1, e2, e3] at hf
+      generalize hookP env (evmCommit c logs) logs = r at *
+      obtain ⟨c1, ok⟩ := r
+      cases ok
+      · exact ⟨rfl, rfl, fun _ => rfl⟩
+      · exact hf
+  exact ⟨by simp [chainNext, key.1], by simp [contractNext, key.2.1], key.2.2⟩
+
+/-- The hook decodes the emitted payload and `SendPacket` commits to the RE-ENCODED packet (`CommitPacket(decode raw)`).
+`reenc raw` = `ABIPack (ABIDecode raw)`. -/
+structure Codec where
+  reenc : Bytes → Option Bytes
+
+/-- the round trip the commitment silently relies on: re-encoding the decoded payload gives the emitted bytes back -/
+def RoundTrip (k : Codec) (raw : Bytes) : Prop := k.reenc raw = some raw
+
+/-- **The commitment of a successful send is the hash of the bytes the packet contract emitted** — under the explicit
+hypothesis that decode-then-encode is the identity on that payload (`RoundTrip`; discharged for the generated ABI tuple
+and JSON schema of the packet by `Proofs/C04Codec.lean` from the C19 theorem `packet_decode_encode`). Without it the
+commitment is the hash of *another* packet (e.g. a tuple component renamed so that the JSON round trip drops
+`fee_option`): `commitment_not_emitted_without_roundtrip`. -/
+theorem send_commitment_is_hash_of_emitted {env : Env} {c c' : Chain} {p : Packet} (k : Codec) (raw : Bytes)
+    (hdec : k.reenc raw = some p.bytes) (hrt : RoundTrip k raw) (h : sendPacket env c p = .ok c') :
+    c'.commits (p.dst, p.seq) = some (env.sha256 raw) := by
+  have : p.bytes = raw := by
+    unfold RoundTrip at hrt; rw [hrt] at hdec; injection hdec with e; exact e.symm
+  rw [← this]; exact (one_commitment_send h).2.2.1
+
+theorem commitment_not_emitted_without_roundtrip {env : Env} {c c' : Chain} {p : Packet} (k : Codec) (raw : Bytes)
+    (hdec : k.reenc raw = some p.bytes) (hne : env.sha256 p.bytes ≠ env.sha256 raw) (h : sendPacket env c p = .ok c') :
+    c'.commits (p.dst, p.seq) ≠ some (env.sha256 raw) := by
+  rw [(one_commitment_send h).2.2.1]; intro e; injection e with e; exact hne e
 
 /-! ### witnesses and non-vacuity -/
 
@@ -854,7 +1028,7 @@ def pk (dst : Bytes) (seq : Nat) : Packet := { src := nA, dst := dst, seq := seq
 def c0 : Chain := fresh nA [nB, nC] [(nB, 1)]
 
 /-- the hypotheses of the theorems are satisfiable on a non-trivial state -/
-example : Full envId c0 := by
+example : Full (freshBase [(nB, 1)]) envId c0 := by
   refine ⟨fresh_core nA [nB, nC] [(nB, 1)] (by simp), by decide, ?_, ?_⟩
   · intro d i h hc; simp [c0, fresh] at hc
   · intro p hp; simp [c0, fresh] at hp
@@ -915,6 +1089,19 @@ example :
     let c1 := (applyTx envId c0 true [.sent (pk nB 1)]).1
     let bad : Chain := { (upgrade c1).1 with cseq := c1.cseq }
     contractNext bad nB = 2 ∧ chainNext bad nB = 1 := by decide
+
+/-- boundary: a history starting with the counter of `nB` at 2^64 - 2: the send with that sequence commits and moves both
+counters to 2^64 - 1; the send carrying 2^64 - 1 fails (the uint64 increment wraps to 0, `setSequence` rejects it) and
+changes nothing — the counter never wraps -/
+example :
+    let cm : Chain := fresh nA [nB, nC] [(nB, 2 ^ 64 - 2)]
+    let c1 := (applyTx envId cm true [.sent (pk nB (2 ^ 64 - 2))]).1
+    (applyTx envId cm true [.sent (pk nB (2 ^ 64 - 2))]).2 = .ok ∧
+    chainNext c1 nB = 2 ^ 64 - 1 ∧ contractNext c1 nB = 2 ^ 64 - 1 ∧
+    (applyTx envId c1 true [.sent (pk nB (2 ^ 64 - 1))]).2 = .hookFailed ∧
+    chainNext (applyTx envId c1 true [.sent (pk nB (2 ^ 64 - 1))]).1 nB = 2 ^ 64 - 1 ∧
+    (applyTx envId c1 true [.sent (pk nB 0)]).2 = .hookFailed ∧ (applyTx envId c1 true [.sent (pk nB 1)]).2 = .hookFailed := by
+  decide
 
 end Examples
 
